@@ -289,7 +289,9 @@ func (ufs *Ufs) Attach(req *SrvReq) {
 	// You can think of the ufs.Root as a 'chroot' of a sort.
 	// clients attach are not allowed to go outside the
 	// directory represented by ufs.Root
-	fid.path = filepath.Join(ufs.Root, tc.Aname)
+	// (the aname is cleaned as an absolute path first, so that ".."
+	// elements cannot climb above ufs.Root)
+	fid.path = filepath.Join(ufs.Root, filepath.Join("/", tc.Aname))
 
 	req.Fid.Aux = fid
 	err := fid.stat()
